@@ -8,7 +8,7 @@ from lib.model import NULL, RowModel
 def to_tables(m, with_index=False):
     tc = tskit.TableCollection(m.L)
     for name, schema in m.schemas.items():
-        getattr(tc, name).metadata_schema = tskit.MetadataSchema.from_str(schema) if isinstance(schema, str) else schema
+        getattr(tc, name).metadata_schema = tskit.metadata.parse_metadata_schema(schema) if isinstance(schema, str) else schema
     for md, in m.populations:
         tc.populations.add_row(metadata=md)
     for fl, loc, par, md in m.individuals:
@@ -27,7 +27,7 @@ def to_tables(m, with_index=False):
     for ts_, rec in m.provenances:
         tc.provenances.add_row(rec, timestamp=ts_)
     if m.metadata_schema:
-        tc.metadata_schema = tskit.MetadataSchema.from_str(m.metadata_schema)
+        tc.metadata_schema = tskit.metadata.parse_metadata_schema(m.metadata_schema)
     if m.metadata:
         tc.metadata = m.metadata
     if m.time_units != "unknown":
@@ -35,7 +35,7 @@ def to_tables(m, with_index=False):
     if m.refseq is not None:
         rs = tc.reference_sequence
         if m.refseq.get("metadata_schema"):
-            rs.metadata_schema = tskit.MetadataSchema.from_str(m.refseq["metadata_schema"])
+            rs.metadata_schema = tskit.metadata.parse_metadata_schema(m.refseq["metadata_schema"])
         if m.refseq.get("metadata"):
             rs.metadata = m.refseq["metadata"]
         if m.refseq.get("data") is not None:
@@ -132,3 +132,90 @@ def tables_bytes(tc):
 
     walk("", d)
     return out
+
+
+# ---------------------------------------------------------------------------------------------
+# Column-level conversions (added for C05/C13; additive).  Row tuple layouts are those of RowModel.
+# kind: u4/i4/f8 fixed columns; T = mutation time (None <-> UNKNOWN_TIME); B = ragged bytes;
+# S = ragged utf8 text (str in the model); Rf8 / Ri4 = ragged numeric arrays (tuples in the model).
+SPEC = {
+    "nodes": (("flags", "u4"), ("time", "f8"), ("population", "i4"), ("individual", "i4"), ("metadata", "B")),
+    "edges": (("left", "f8"), ("right", "f8"), ("parent", "i4"), ("child", "i4"), ("metadata", "B")),
+    "sites": (("position", "f8"), ("ancestral_state", "S"), ("metadata", "B")),
+    "mutations": (("site", "i4"), ("node", "i4"), ("derived_state", "S"), ("parent", "i4"), ("time", "T"),
+                  ("metadata", "B")),
+    "individuals": (("flags", "u4"), ("location", "Rf8"), ("parents", "Ri4"), ("metadata", "B")),
+    "populations": (("metadata", "B"),),
+    "migrations": (("left", "f8"), ("right", "f8"), ("node", "i4"), ("source", "i4"), ("dest", "i4"),
+                   ("time", "f8"), ("metadata", "B")),
+    "provenances": (("timestamp", "S"), ("record", "S")),
+}
+_FIXED = {"u4": np.uint32, "i4": np.int32, "f8": np.float64}
+
+
+def is_ragged(kind):
+    return kind in ("B", "S", "Rf8", "Ri4")
+
+
+def pack_ragged(kind, entries):
+    """(flat array, uint64 offsets) for a list of per-row values, computed in plain Python."""
+    off = [0]
+    if kind in ("B", "S"):
+        bs = [e.encode("utf8", "surrogateescape") if isinstance(e, str) else bytes(e) for e in entries]
+        for b in bs:
+            off.append(off[-1] + len(b))
+        flat = np.frombuffer(b"".join(bs), dtype=np.int8).copy()
+    else:
+        dt = np.float64 if kind == "Rf8" else np.int32
+        vals = []
+        for e in entries:
+            vals.extend(e)
+            off.append(off[-1] + len(e))
+        flat = np.array(vals, dtype=dt)
+    return flat, np.array(off, dtype=np.uint64)
+
+
+def columns_from_rows(name, rows):
+    """dict of numpy columns (as accepted by set_columns/append_columns) for a list of row tuples."""
+    out = {}
+    for j, (col, kind) in enumerate(SPEC[name]):
+        vals = [r[j] for r in rows]
+        if kind in _FIXED:
+            out[col] = np.array(vals, dtype=_FIXED[kind])
+        elif kind == "T":
+            out[col] = np.array([tskit.UNKNOWN_TIME if v is None else v for v in vals], dtype=np.float64)
+        else:
+            out[col], out[col + "_offset"] = pack_ragged(kind, vals)
+    return out
+
+
+def rows_from_columns(name, d):
+    """Row tuples read back from raw columns (d: mapping column name -> array, e.g. table.asdict())."""
+    spec = SPEC[name]
+    percol = []
+    n = None
+    for col, kind in spec:
+        if kind in _FIXED:
+            a = np.asarray(d[col])
+            vals = [int(x) for x in a] if kind != "f8" else [float(x) for x in a]
+        elif kind == "T":
+            a = np.asarray(d[col])
+            unk = tskit.is_unknown_time(a)
+            vals = [None if unk[j] else float(a[j]) for j in range(len(a))]
+        else:
+            off = [int(x) for x in np.asarray(d[col + "_offset"])]
+            flat = np.asarray(d[col])
+            if kind == "B":
+                b = flat.tobytes()
+                vals = [b[off[j]:off[j + 1]] for j in range(len(off) - 1)]
+            elif kind == "S":
+                b = flat.tobytes()
+                vals = [b[off[j]:off[j + 1]].decode("utf8", "surrogateescape") for j in range(len(off) - 1)]
+            elif kind == "Rf8":
+                vals = [tuple(float(x) for x in flat[off[j]:off[j + 1]]) for j in range(len(off) - 1)]
+            else:
+                vals = [tuple(int(x) for x in flat[off[j]:off[j + 1]]) for j in range(len(off) - 1)]
+        if n is None:
+            n = len(vals)
+        percol.append(vals)
+    return [tuple(c[j] for c in percol) for j in range(n or 0)]
